@@ -257,7 +257,10 @@ def configs(quick):
         for server, pool in (("multiplex", 4), ("thread", 4)):
             if quick and server == "thread" and (a, b) not in (("ow_set", "plain"), ("raise_after_set", "plain"), ("ret_assign", "ret_assign"), ("ow_set", "ow_set")):
                 continue
-            out.append({"server": server, "pool": pool, "scripts": [[a, "plain"], [b, "plain"]], "p": 1 if quick else 2, "r": 1 if quick else 3, "horizon": 4000})
+            # thorough budgets are measured: on the multiplex server (1,2) costs ~25 cpu-s per pair and (2,1) ~3 cpu-min; on the thread pool (1,2) ~100 cpu-s;
+            # (2,1)/(1,2) for all pairs took 43 min of wall time, (2,3) does not finish in hours
+            pr = (1, 1) if (quick or server == "thread") else (1, 2)
+            out.append({"server": server, "pool": pool, "scripts": [[a, "plain"], [b, "plain"]], "p": pr[0], "r": pr[1], "horizon": 4000})
     # (b) successive connections served by the same thread: multiplex, or a thread pool of one worker
     for a in ["ret_assign", "ret_update", "raise_after_set", "ow_set", "batch"]:
         for b in ["plain", "ping", "ret_update", "reconnect", "ow_reset", "raw_refused"]:
